@@ -32,8 +32,14 @@ pub enum WriteFamily {
     Plain,
     /// prefixes and Pending + immediate wake (timestamps unchanged)
     Partial(Vec<WStep>),
-    /// one clientbound frame of the configuration phase stays Pending for `ms` (timestamps shift)
-    PendingFor { frame_pick: u16, ms: u16 },
+    /// one clientbound frame of the configuration phase stays Pending for `ms` (timestamps shift); with `prefix` > 0
+    /// its first bytes are accepted before the rest stays pending
+    PendingFor {
+        frame_pick: u16,
+        ms: u16,
+        #[serde(default)]
+        prefix: u8,
+    },
 }
 
 #[derive(Clone, Debug, Serialize, Deserialize)]
@@ -237,7 +243,7 @@ impl Check for C08 {
         let write = prop_oneof![
             2 => Just(WriteFamily::Plain),
             3 => proptest::collection::vec(wstep, 1..60).prop_map(WriteFamily::Partial),
-            3 => (any::<u16>(), prop_oneof![3 => 1u16..=3, 1 => 4u16..=50]).prop_map(|(frame_pick, ms)| WriteFamily::PendingFor { frame_pick, ms }),
+            3 => (any::<u16>(), prop_oneof![3 => 1u16..=3, 1 => 4u16..=50]).prop_flat_map(|(frame_pick, ms)| prop_oneof![2 => Just(0u8), 1 => 1u8..9].prop_map(move |prefix| WriteFamily::PendingFor { frame_pick, ms, prefix })),
         ];
         let rscript = prop_oneof![
             2 => Just(Vec::new()),
@@ -283,13 +289,16 @@ impl Check for C08 {
             let (wscript, timed_compare, pending_across) = match &v.write {
                 WriteFamily::Plain => (vec![], true, None),
                 WriteFamily::Partial(w) => (w.clone(), true, None),
-                WriteFamily::PendingFor { frame_pick, ms } => {
+                WriteFamily::PendingFor { frame_pick, ms, prefix } => {
                     if cfg_frames.is_empty() || !safe {
                         (vec![], true, None)
                     } else {
                         // in the baseline every frame is one accepted write: the n-th frame is the n-th poll_write
                         let j = cfg_frames[idx(*frame_pick, cfg_frames.len())];
                         let mut w = vec![WStep::All; j];
+                        if *prefix > 0 {
+                            w.push(WStep::Prefix(u16::from(*prefix)));
+                        }
                         w.push(WStep::PendingFor(*ms));
                         let t = base.cb[j].0;
                         let across = xs.iter().find(|(x, k)| *k == "adapter-completion" && *x > t && *x <= t + u64::from(*ms)).map(|(x, _)| *x);
